@@ -4,10 +4,11 @@ from pyvc.core import *
 from pyvc.solve import Obligation
 from pyvc import symalg as B, scan
 import contracts.filtered as FL
+import contracts.potable_cli as CLIc
 
 F = FL.FILE
 F_POT = 'atsim/potentials/tools/potable/__init__.py'
-FUNCTIONS = [(F, 'FilteredConfigParser._check_tuple')] + [(F, 'FilteredConfigParser.' + v) for v in ('pair', 'eam_embed', 'eam_density', 'eam_density_fs')] + [(F, 'FilteredConfigParser.__init__')]
+FUNCTIONS = [(F, 'FilteredConfigParser._check_tuple')] + [(F, 'FilteredConfigParser.' + v) for v in ('pair', 'eam_embed', 'eam_density', 'eam_density_fs')] + [(F, 'FilteredConfigParser.__init__'), (F_POT, '_make_config_parser'), (F_POT, '_do_tabulation')]
 SPECSEQS = [FL.filt_pairs, FL.filt_single]
 
 FILTERED_VIEWS = {'pair': "filtered = [p for p in self.__wrapped__.pair if self._check_tuple(p.species)]",
@@ -41,7 +42,8 @@ def lemmas():
     out.append(B.static_obligation('C13/config/read-set-of-the-pipeline-on-its-parser', not extra, 'config package', 'atsim/potentials/config/*.py',
                                    'reads outside the filtered views: %s' % extra, hard=False))
     out.append(B.static_obligation('C13/config/read-set-nonempty', len(reads) >= 5, 'config package', 'atsim/potentials/config/*.py', 'scan found %d attributes' % len(reads)))
-    out.append(S('C13', F_POT, '_make_config_parser', 'cli-builds-the-view', ['cp = FilteredConfigParser(cp, exclude=species)', 'cp = FilteredConfigParser(cp, include=species)']))
+    # the command line route (_do_tabulation -> _make_config_parser -> FilteredConfigParser) is under Engine A contracts (contracts/potable_cli.py):
+    # --include-species S gives the include view with exactly S, --exclude-species S the exclude view, for every S (the empty one included)
     return out
 
 MUTANTS = [
@@ -54,6 +56,12 @@ MUTANTS = [
     (F, 'FilteredConfigParser.eam_density', "return filtered", "return filtered[1:]", 'post'),
     (F, 'FilteredConfigParser._check_tuple', "if self._self_exclude_flag and v_in:", "if self._self_exclude_flag and (not v_in):", 'post'),
     (F, 'FilteredConfigParser._check_tuple', "return True", "return False", 'post'),
+    (F_POT, '_make_config_parser', "if species is not None:", "if species:", 'post'),              # the defect repaired by c45c828
+    (F_POT, '_make_config_parser', "if exclude_flag:", "if not exclude_flag:", 'post'),
+    (F_POT, '_make_config_parser', "cp = FilteredConfigParser(cp, include=species)", "cp = FilteredConfigParser(cp, include=species[1:])", 'post'),
+    (F_POT, '_do_tabulation', "if args.include_species is not None:", "if args.include_species:", 'on-raise'),     # the defect repaired by c45c828
+    (F_POT, '_do_tabulation', "exclude_flag = True", "exclude_flag = False", 'on-raise'),
+    (F_POT, '_do_tabulation', "species_list = args.exclude_species", "species_list = args.include_species", 'on-raise'),
 ]
 MODULE_MUTANTS = [
     (F, "      self._self_species_list = exclude\n      self._self_exclude_flag = True", "      self._species_list = exclude\n      self._self_exclude_flag = True", 'frame'),
